@@ -277,6 +277,10 @@ T1_PROPS = {
     'C09': dict(target='Properties_C09', clauses=['C09'], profiles=['locked', 'locked', 'mixed']),
     'C10': dict(target='Properties_C10', clauses=['C10'], profiles=['resize', 'resize', 'mixed', 'grow']),
     'C17': dict(target='Properties_C17', clauses=['C17'], profiles=['churn', 'grow', 'mixed']),
+    'C08': dict(target='Properties_C08', clauses=['HARNESS', 'CRASH', 'LEAK'], profiles=['churn', 'grow', 'resize', 'special', 'locked'], kinds=[1]),
+    'C11': dict(target='Properties_C11', clauses=['C11', 'C02', 'C05', 'HARNESS', 'CRASH', 'LEAK'], profiles=['special']),
+    'C12': dict(target='Properties_C12', clauses=['C12', 'C02', 'C05', 'C09', 'CRASH'], profiles=['stream'], kinds=[0]),
+    'C16': dict(target='Properties_C16', clauses=['C16', 'HARNESS', 'CRASH', 'CONSUMED'], profiles=['grow', 'churn', 'mixed', 'locked'], kinds=[1]),
 }
 
 def blame_kinds(res):
@@ -287,6 +291,12 @@ def blame_kinds(res):
         kinds.add('CRASH')
     if res['status'] == 'harness_error':
         kinds.add('HARNESS')
+    if res['status'] == 'mismatch':
+        d = res.get('detail', {})
+        if str(d.get('impl', '')).startswith('END ') or str(d.get('model', '')).startswith('END '):
+            kinds.add('LEAK')        # allocation / object balance at the end differs from the model's (nothing live)
+        if 'consumed=' in str(d.get('impl', '')) + str(d.get('model', '')):
+            kinds.add('CONSUMED')    # the caller's arguments were (not) moved from against the model
     return kinds
 
 def finding_sig(res):
@@ -338,7 +348,12 @@ def check_T1(pid, tier, seed):
     if ok_gen and not okm:
         broken.append('model build failed: ' + mlog[-400:])
     cfgs = t1.QUICK_CFGS if tier == 'quick' else t1.THOROUGH_CFGS
+    if spec.get('kinds'):
+        cfgs = [c for c in t1.THOROUGH_CFGS if c['kind'] in spec['kinds']]
+        if tier == 'quick': cfgs = cfgs[:5]
     ncases = 280 if tier == 'quick' else 6000
+    if pid in ('C11', 'C12'):
+        ncases = 120 if tier == 'quick' else 3000     # multi-table scripts are several times longer
     if broken:
         ncases *= 3     # failing-input search: more volume
     findings = load_findings()
@@ -560,6 +575,91 @@ def check_C15(tier, seed):
     if not violations: shutil.rmtree(keep, ignore_errors=True)
     return 1 if violations else 0
 
+# ----------------------------------------------------------------------------- T3: fault enumeration on the C++ table (C07)
+def run_seq_faults(args):
+    binary, script_text, tag, keep_dir = args
+    os.makedirs(keep_dir, exist_ok=True)
+    h = hashlib.sha1(script_text.encode()).hexdigest()[:16]
+    path = os.path.join(keep_dir, 'fault_%s_%s.txt' % (tag, h))
+    open(path, 'w').write(script_text)
+    try:
+        r = subprocess.run([binary, '--faults', path], capture_output=True, text=True, timeout=900)
+    except subprocess.TimeoutExpired:
+        return dict(path=path, status='timeout', lines=[], bad=[])
+    lines = [l for l in r.stdout.split('\n') if ' :: FAULT ' in l]
+    bad = [l for l in lines if 'fired=1' in l and 'verdict=ok' not in l]
+    if not bad and r.returncode == 0:
+        os.unlink(path)
+    return dict(path=path, status='ok' if r.returncode == 0 else 'crash', lines=lines, bad=bad)
+
+def c07_sig(line):
+    op = line.split(' :: ')[0].split()[2] if ' :: ' in line else ''
+    if 'use of moved-from object' in line and op in ('rehash', 'reserve', 'l.rehash', 'l.reserve', 'insert', 'ioa', 'upsert', 'uprase', 'l.insert', 'l.idx'):
+        return 'use-of-moved-from-after-failed-rebuild'
+    return None
+
+def check_C07(tier, seed):
+    t0 = time.time()
+    pid = 'C07'
+    rng = random.Random(seed)
+    broken, okc, theorems, closed, axioms, changed = coq_stage('Properties_C07')
+    cfgs = [t1.mkcfg(2, 2, 1, 1), t1.mkcfg(4, 2, 0), t1.mkcfg(1, 1, 0), t1.mkcfg(3, 1, 1, 0), t1.mkcfg(2, 1, 0)]
+    if tier != 'quick':
+        cfgs += [t1.mkcfg(4, 1, 1, 1), t1.mkcfg(8, 1, 0), t1.mkcfg(1, 2, 1, 0), t1.mkcfg(4, 16, 0)]
+    bins = t1.build_harness(cfgs)
+    n = 40 if tier == 'quick' else 800
+    if broken: n *= 3
+    keep = os.path.join(BUILD, 'cases_' + pid)
+    jobs = []
+    for i in range(n):
+        c = cfgs[i % len(cfgs)]
+        sc = gen.gen_script(rng.getrandbits(48), c, nops=rng.choice([30, 50, 80]), poison=True,
+                            profile=rng.choice(['grow', 'churn', 'resize', 'mixed', 'locked']))
+        jobs.append((bins[t1.cfg_name(c)], sc, t1.cfg_name(c), keep))
+    with concurrent.futures.ThreadPoolExecutor(max_workers=16) as ex:
+        res = list(ex.map(run_seq_faults, jobs))
+    findings = load_findings()
+    viol, known_hits = [], {}
+    for r in res:
+        if r['status'] != 'ok':
+            viol.append((r, 'fault-enumeration run ended with status ' + r['status']))
+        for l in r['bad']:
+            sig = c07_sig(l)
+            kf = [f for f in findings if f['prop'] == pid and f['sig'] == sig] if sig else []
+            if kf: known_hits[sig] = kf[0]
+            else: viol.append((r, l))
+    violations = 0
+    for sig, f in known_hits.items():
+        log('KNOWN-FINDING: property=%s %s' % (pid, f['text']))
+    if viol:
+        r, l = viol[0]
+        txt = open(r['path']).read() if os.path.exists(r['path']) else ''
+        path = save_replay(pid, txt, 'fault injection: ' + l)
+        log('VIOLATION property=%s replay=%s' % (pid, path)); violations = 1
+    elif broken:
+        path = save_replay(pid, '# no failing fault position found\n', '\n'.join(broken))
+        log('VIOLATION property=%s replay=%s no-failing-input-found' % (pid, path)); violations = 1
+    nfault = sum(len(r['lines']) for r in res)
+    fired = sum(1 for r in res for l in r['lines'] if 'fired=1' in l)
+    kinds = {}
+    for r in res:
+        for l in r['lines']:
+            if 'fired=1' in l:
+                m = re.search(r'kind=(\d)', l)
+                kinds[m.group(1)] = kinds.get(m.group(1), 0) + 1
+    ntheorems = len([t for t in theorems if t.startswith(pid + '_')])
+    sample = [l for r in res for l in r['lines'] if 'fired=1' in l][:4]
+    cov = dict(obligations=max(ntheorems, 1), discharged=(ntheorems if okc else 0),
+               checker_cmd='make -C coq Properties_C07.vo (coqc 8.16.1, full .vo)', trusted_base=TRUSTED_BASE,
+               print_assumptions=dict(closed_under_global_context=closed, axioms=axioms), theorems=theorems,
+               evaluations=nfault, distinct_nontrivial=fired,
+               rule='T3: for every operation of every generated script (configs %s) a forked child injects one fault and judges the outcome: kind 1 = the k-th allocation through the table\'s allocator fails, for k = 1.. until the operation no longer reaches a k-th allocation; kind 2/3 = hash / equality throws for a designated key; kind 4 = the k-th copy construction of an element from the caller\'s arguments throws; kind 5 = the functor throws after a partial effect. Checked: the exception reaches the caller, contents and size unchanged (functor: preceding insertion and partial effect remain), failed rehash/reserve keep the hashpower, no lock held, follow-up operations and destruction work, allocation and object balance equal the unfaulted control child. evaluations = fault positions tried, non-trivial = positions where the fault fired' % [t1.cfg_name(c) for c in cfgs],
+               samples=sample or ['(none fired)'], fired_by_kind=kinds, scripts=len(jobs),
+               known_findings=sorted(known_hits.keys()), gen_changed=changed)
+    write_evidence(pid, tier, seed, cov, time.time() - t0, violations, TRUSTED_BASE)
+    if not violations: shutil.rmtree(keep, ignore_errors=True)
+    return 1 if violations else 0
+
 # ----------------------------------------------------------------------------- T2: concurrent properties
 T2_PROPS = {
     'C01': dict(target='Properties_C01', blame=('C01', 'C05', 'C03'), profiles=['mixed', 'resize', 'insert', 'mixed', 'locked', 'rmw']),
@@ -678,6 +778,8 @@ def main():
         sys.exit(check_T1(a.pid, a.tier, seed))
     if a.pid in T2_PROPS:
         sys.exit(check_T2(a.pid, a.tier, seed))
+    if a.pid == 'C07':
+        sys.exit(check_C07(a.tier, seed))
     if a.pid == 'C14':
         sys.exit(check_C14(a.tier, seed))
     if a.pid == 'C15':
